@@ -4,8 +4,11 @@ C03 — ambient context is a per-thread stack; frames leave no trace once exited
 Workload: seeded, well-nested *programs* (5–60 ops, nesting depth <= 8) over the real frame API:
 `Frame::push / root / disabled / current` x `enter`-guard / `with` / `call` / `in_fn` /
 `in_future`, re-entering a frame, frames created at one program point and entered at another,
-frames moved to spawned threads (and back) and into other tasks, 2–4 *logical* context
-instances (`ThreadLocalCtxt::new()`, at most one `ThreadLocalCtxt::shared()`) whose constructor calls
+frames moved to spawned threads (and back) and into other tasks, 2–4 context instances obtained
+through every construction route (`ThreadLocalCtxt::new()`, `shared()` - also twice -,
+`Default::default()`, `emit::setup()...init_slot(slot)` runtimes on separate `AmbientSlot`s, copies and
+clones of another instance; an identity oracle says which of them are the same *logical* context:
+copies / clones of one another and any two `shared()`, nothing else - see `Route`) whose constructor calls
 are made on *different threads* (the long-lived worker thread, helper threads that only create a
 ctxt and send it back over a channel, one sibling thread creating several, the thread that then
 runs the program - a fresh one for a third of the programs) and which are then used together, every one of them
@@ -330,18 +333,44 @@ struct TpObjs {
     boxed: BoxDyn,
 }
 
-/// The only call sites of `ThreadLocalCtxt::new()` / `shared()` for program instances.
-fn make_ctxt(shared: bool) -> ThreadLocalCtxt {
-    if shared {
-        ThreadLocalCtxt::shared()
-    } else {
-        ThreadLocalCtxt::new()
+/// The only call sites of `ThreadLocalCtxt::new()` / `shared()` / `default()` for program instances
+/// (`None`: the route does not build the ctxt here - `emit::setup()` does it inside `Inst::new`,
+/// copies and clones are taken from the instance they alias).
+fn make_ctxt(route: Route) -> Option<ThreadLocalCtxt> {
+    match route {
+        Route::New => Some(ThreadLocalCtxt::new()),
+        Route::Shared => Some(ThreadLocalCtxt::shared()),
+        Route::Default => Some(<ThreadLocalCtxt as Default>::default()),
+        Route::SetupSlot | Route::CopyOf(_) | Route::CloneOf(_) => None,
     }
 }
 
+/// Whether the route's constructor call can be made on any thread ahead of the program.
+fn make_ctxt_elsewhere(route: Route) -> bool {
+    matches!(route, Route::New | Route::Shared | Route::Default)
+}
+
 impl Inst {
-    fn new(tl: ThreadLocalCtxt, def: InstDef) -> Inst {
-        let (shared, slot_kind) = (def.shared, def.slot_kind);
+    /// `given`: the ctxt made by `make_ctxt` (on whichever thread), or a copy / clone of another
+    /// instance's; `None` = `Route::SetupSlot`: `emit::setup()` builds it.
+    fn new(given: Option<ThreadLocalCtxt>, def: InstDef) -> Inst {
+        let (shared, slot_kind) = (def.route == Route::Shared, def.slot_kind);
+        // the application's way: `emit::setup()` default-constructs its ctxt; the runtime then goes
+        // into this instance's own slot (`try_init_slot` below), next to the other instances' slots
+        let mut setup = None;
+        let tl = match given {
+            Some(tl) => tl,
+            None => {
+                let mut got = None;
+                let s = emit::setup().map_ctxt(|c: ThreadLocalCtxt| {
+                    got = Some(c);
+                    c
+                });
+                // (no system clock / OS randomness: the monitor also runs under Miri)
+                setup = Some(s.emit_to(TlsRecorder).with_clock(emit::Empty).with_rng(emit::Empty));
+                got.expect("map_ctxt maps the ctxt")
+            }
+        };
         let live = Arc::new(AtomicI64::new(0));
         let pad = Pad { inner: tl, live: live.clone() };
         let slot = AmbientSlot::new();
@@ -350,13 +379,22 @@ impl Inst {
             let pad = Pad { inner: c, live: live.clone() };
             TpObjs { c, opt: Some(c), assert: AssertInternal(c), opt_pad: Some(pad.clone()), pad, boxed: Box::new(c) }
         });
+        macro_rules! init {
+            ($wrap:expr) => {
+                match setup.take() {
+                    // the ctxt `emit::setup()` made, wrapped like every other instance's
+                    Some(s) => s.map_ctxt($wrap).try_init_slot(&slot).is_some(),
+                    None => slot.init(Runtime::new().with_emitter(TlsRecorder).with_ctxt(($wrap)(tl))).is_some(),
+                }
+            };
+        }
         let ok = match (&tpx, slot_kind) {
-            (None, 0) => slot.init(Runtime::new().with_emitter(TlsRecorder).with_ctxt(tl)).is_some(),
-            (None, 1) => slot.init(Runtime::new().with_emitter(TlsRecorder).with_ctxt(pad.clone())).is_some(),
-            (None, _) => slot.init(Runtime::new().with_emitter(TlsRecorder).with_ctxt(Some(pad.clone()))).is_some(),
-            (Some(x), 0) => slot.init(Runtime::new().with_emitter(TlsRecorder).with_ctxt(x.c)).is_some(),
-            (Some(x), 1) => slot.init(Runtime::new().with_emitter(TlsRecorder).with_ctxt(x.pad.clone())).is_some(),
-            (Some(x), _) => slot.init(Runtime::new().with_emitter(TlsRecorder).with_ctxt(Some(x.pad.clone()))).is_some(),
+            (None, 0) => init!(|c: ThreadLocalCtxt| c),
+            (None, 1) => init!(|c: ThreadLocalCtxt| Pad { inner: c, live: live.clone() }),
+            (None, _) => init!(|c: ThreadLocalCtxt| Some(Pad { inner: c, live: live.clone() })),
+            (Some(_), 0) => init!(|c: ThreadLocalCtxt| TraceparentCtxt::new(c)),
+            (Some(_), 1) => init!(|c: ThreadLocalCtxt| Pad { inner: TraceparentCtxt::new(c), live: live.clone() }),
+            (Some(_), _) => init!(|c: ThreadLocalCtxt| Some(Pad { inner: TraceparentCtxt::new(c), live: live.clone() })),
         };
         assert!(ok, "fresh slot initialises");
         Inst {
@@ -682,9 +720,67 @@ impl Place {
     }
 }
 
+/// How the `ThreadLocalCtxt` of an instance comes into being. Identity oracle (from the type's
+/// documentation: `new()` = "fully isolated storage", `shared()` = "sharing the same storage as any
+/// other `shared()`", and a `Copy` type whose copies are the value itself): two instances are THE
+/// SAME context iff one is a copy / clone of the other or both are `shared()`; anything else -
+/// including two `default()`s, `default()` next to `shared()`, two `emit::setup()` runtimes - is
+/// isolated.
+#[derive(Clone, Copy, Debug, PartialEq, Eq, Hash)]
+enum Route {
+    /// `ThreadLocalCtxt::new()`
+    New,
+    /// `ThreadLocalCtxt::shared()`
+    Shared,
+    /// `<ThreadLocalCtxt as Default>::default()`
+    Default,
+    /// `emit::setup()` (= `Setup::new()`, which builds its ctxt with `Default::default()`) initialised
+    /// into the instance's own `AmbientSlot` with `init_slot`: an application's and a library's runtime
+    SetupSlot,
+    /// a copy (`let b = a;`) of the earlier instance with that index
+    CopyOf(usize),
+    /// `a.clone()` of the earlier instance with that index
+    CloneOf(usize),
+}
+
+impl Route {
+    fn base(self) -> Option<usize> {
+        match self {
+            Route::CopyOf(j) | Route::CloneOf(j) => Some(j),
+            _ => None,
+        }
+    }
+}
+
+/// The name of a route as signatures and evidence show it (`copy-of-default`, ...).
+fn route_name(defs: &[InstDef], i: usize) -> String {
+    match defs[i].route {
+        Route::New => "new".into(),
+        Route::Shared => "shared".into(),
+        Route::Default => "default".into(),
+        Route::SetupSlot => "setup-slot".into(),
+        Route::CopyOf(j) => format!("copy-of-{}", route_name(defs, j)),
+        Route::CloneOf(j) => format!("clone-of-{}", route_name(defs, j)),
+    }
+}
+
+/// The identity oracle: the class (smallest member index) of every instance.
+fn classes(defs: &[InstDef]) -> Vec<usize> {
+    let mut cls: Vec<usize> = Vec::new();
+    for (i, d) in defs.iter().enumerate() {
+        let c = match d.route {
+            Route::CopyOf(j) | Route::CloneOf(j) => cls[j],
+            Route::Shared => defs[..i].iter().position(|e| e.route == Route::Shared).map(|j| cls[j]).unwrap_or(i),
+            Route::New | Route::Default | Route::SetupSlot => i,
+        };
+        cls.push(c);
+    }
+    cls
+}
+
 #[derive(Clone, Copy, Debug, Hash)]
 struct InstDef {
-    shared: bool,
+    route: Route,
     slot_kind: u8,
     place: Place,
     /// the instance is `TraceparentCtxt<ThreadLocalCtxt>` instead of a plain `ThreadLocalCtxt`
@@ -1031,15 +1127,35 @@ impl<'r> Gen<'r> {
 
 fn generate(r: &mut Rng, min_ops: u64, max_ops: u64) -> Program {
     let n_inst = 2 + r.usize(3);
-    let shared_at = if r.chance(1, 3) { Some(r.usize(n_inst)) } else { None };
-    let insts = (0..n_inst)
-        .map(|i| InstDef {
-            shared: shared_at == Some(i),
+    let mut insts: Vec<InstDef> = Vec::new();
+    for i in 0..n_inst {
+        // every construction route of a `ThreadLocalCtxt`; copies / clones always name the instance
+        // that was really constructed (never another copy)
+        let route = match r.below(100) {
+            0..=33 => Route::New,
+            34..=53 => Route::Default,
+            54..=65 => Route::SetupSlot,
+            66..=80 => Route::Shared,
+            _ if i > 0 => {
+                let j = r.usize(i);
+                let j = insts[j].route.base().unwrap_or(j);
+                if r.bool() {
+                    Route::CopyOf(j)
+                } else {
+                    Route::CloneOf(j)
+                }
+            }
+            _ => Route::Default,
+        };
+        let place = *r.pick(&[Place::Worker, Place::OwnHelper, Place::OwnHelper, Place::Sibling, Place::Sibling, Place::ProgramThread]);
+        insts.push(InstDef {
+            route,
             slot_kind: r.below(3) as u8,
-            place: *r.pick(&[Place::Worker, Place::OwnHelper, Place::OwnHelper, Place::Sibling, Place::Sibling, Place::ProgramThread]),
+            // `emit::setup()` runs, and copies are taken, on the thread that runs the program
+            place: if make_ctxt_elsewhere(route) { place } else { Place::ProgramThread },
             tp: r.chance(1, 3),
-        })
-        .collect();
+        });
+    }
     let fresh_thread = r.chance(1, 3);
     let budget = r.range(min_ops.max(1), max_ops.max(min_ops).max(1)) as i64;
     let mut g = Gen { r, n_inst, n_vars: 0, budget, max_depth: 8 };
@@ -1064,7 +1180,10 @@ struct Viol {
 
 #[derive(Default)]
 struct Ts {
+    /// one model stack per identity class (indexed by the class = its smallest instance index)
     stacks: Vec<Vec<(AMap, FK)>>,
+    /// instance index -> identity class (copy of `Cx::cls`)
+    cls: Vec<usize>,
     /// the thread's traceparent stack (one per thread, shared by every traceparent instance)
     tp: Vec<TpVal>,
     viols: Vec<Viol>,
@@ -1100,7 +1219,7 @@ impl Ts {
 
     /// What instance `inst` must show right now.
     fn expected(&self, cx: &Cx, inst: usize) -> (AMap, &'static str) {
-        let (inner, kind) = match self.stacks[inst].last() {
+        let (inner, kind) = match self.stacks[self.cls[inst]].last() {
             Some((m, k)) => (m.clone(), k.name()),
             None => (AMap::default(), "none"),
         };
@@ -1129,11 +1248,16 @@ fn bump(name: &'static str) {
 }
 
 fn top(inst: usize) -> AMap {
-    ts(|t| t.stacks[inst].last().map(|(m, _)| m.clone())).unwrap_or_default()
+    ts(|t| t.stacks[t.cls[inst]].last().map(|(m, _)| m.clone())).unwrap_or_default()
 }
 
 struct Cx {
     insts: Vec<Inst>,
+    defs: Vec<InstDef>,
+    /// the identity oracle: instances with the same class are the same context and share one model stack
+    cls: Vec<usize>,
+    /// the program uses a construction route other than `new()` / one `shared()`: signatures name the routes
+    routes_named: bool,
     any_tp: bool,
     n_vars: usize,
     seed: u64,
@@ -1169,7 +1293,28 @@ fn compare(cx: &Cx, site: &'static str, inst: usize, via: &str, got: &Map) {
         if *got != *want {
             let class = diff_class(got, &want);
             let thread = t.thread;
-            let flavour = if cx.insts[inst].is_tp() { ":ctxt=traceparent" } else { "" };
+            let mut flavour = if cx.insts[inst].is_tp() { ":ctxt=traceparent".to_string() } else { String::new() };
+            if cx.routes_named {
+                // which construction routes are involved: this instance's, and - if what it wrongly
+                // shows (or lacks) is exactly what another instance holds - that instance's too
+                let mine = route_name(&cx.defs, inst);
+                let wrong = |m: &Map, k: &String, v: &String| m.get(k) != Some(v);
+                let others = || (0..cx.insts.len()).filter(|j| *j != inst);
+                // isolated by the oracle, yet everything `got` has beyond `want` is what they hold
+                let leaked_from = others().filter(|j| t.cls[*j] != t.cls[inst]).find(|j| {
+                    let (theirs, _) = t.expected(cx, *j);
+                    let mut extra = got.iter().filter(|(k, v)| wrong(&*want, k, v)).peekable();
+                    extra.peek().is_some() && extra.all(|(k, v)| !wrong(&*theirs, k, v))
+                });
+                // the same context by the oracle, but this copy of it lacks what the model says it holds
+                let other = leaked_from.or_else(|| others().filter(|_| class != "extra-props").find(|j| t.cls[*j] == t.cls[inst]));
+                let mut names = vec![mine];
+                if let Some(j) = other {
+                    names.push(route_name(&cx.defs, j));
+                    names.sort();
+                }
+                flavour = format!("{}{}{}", if flavour.is_empty() { ":ctxt=" } else { ":ctxt=traceparent/" }, names[0], names.get(1).map(|n| format!("+{}", n)).unwrap_or_default());
+            }
             t.viols.push(Viol {
                 sig: format!("C03:{}:{}:innermost={}{}", site, class, kind, flavour),
                 what: format!(
@@ -1179,6 +1324,7 @@ fn compare(cx: &Cx, site: &'static str, inst: usize, via: &str, got: &Map) {
                 detail: json!({"site": site, "thread": thread, "instance": inst, "via": via, "got": got, "want": *want,
                                "traceparent_instance": cx.insts[inst].is_tp(), "model_traceparent": format!("{:?}", t.tp.last()),
                                "shared_instance": cx.insts[inst].shared, "slot_kind": cx.insts[inst].slot_kind,
+                               "instance_routes": (0..cx.defs.len()).map(|i| route_name(&cx.defs, i)).collect::<Vec<_>>(), "identity_classes": cx.cls,
                                "instances_created_on": cx.insts.iter().map(|i| i.place.name()).collect::<Vec<_>>()}),
             });
         }
@@ -1269,7 +1415,8 @@ struct ModelScope<'c> {
 impl<'c> ModelScope<'c> {
     fn push(cx: &'c Cx, inst: usize, map: &AMap, kind: FK, slot: Option<TpVal>) -> Self {
         let depths = ts(|t| {
-            t.stacks[inst].push((map.clone(), kind));
+            let class = t.cls[inst];
+            t.stacks[class].push((map.clone(), kind));
             if let Some(tp) = slot {
                 t.tp.push(tp);
             }
@@ -1287,7 +1434,8 @@ impl<'c> ModelScope<'c> {
         let set_tp = self.set_tp;
         let ok = ts(|t| {
             let ok = t.depths() == want;
-            t.stacks[inst].pop();
+            let class = t.cls[inst];
+            t.stacks[class].pop();
             if set_tp {
                 t.tp.pop();
             }
@@ -1309,7 +1457,8 @@ impl Drop for ModelScope<'_> {
             let inst = self.inst;
             let set_tp = self.set_tp;
             ts(|t| {
-                t.stacks[inst].pop();
+                let class = t.cls[inst];
+                t.stacks[class].pop();
                 if set_tp {
                     t.tp.pop();
                 }
@@ -1323,7 +1472,7 @@ fn run_thread<R>(cx: &Cx, name: &'static str, f: impl FnOnce() -> R) -> R {
     let prev = TS.with(|t| {
         std::mem::replace(
             &mut *t.borrow_mut(),
-            Ts { stacks: (0..cx.insts.len()).map(|_| Vec::new()).collect(), thread: name, ..Ts::default() },
+            Ts { stacks: (0..cx.insts.len()).map(|_| Vec::new()).collect(), cls: cx.cls.clone(), thread: name, ..Ts::default() },
         )
     });
     struct Finish<'c>(&'c Cx, Option<Ts>);
@@ -1899,8 +2048,8 @@ fn fixed_cancel_program() -> Program {
     ];
     Program {
         insts: vec![
-            InstDef { shared: false, slot_kind: 1, place: Place::Worker, tp: false },
-            InstDef { shared: false, slot_kind: 2, place: Place::OwnHelper, tp: true },
+            InstDef { route: Route::New, slot_kind: 1, place: Place::Worker, tp: false },
+            InstDef { route: Route::New, slot_kind: 2, place: Place::OwnHelper, tp: true },
         ],
         fresh_thread: false,
         n_vars: 7,
@@ -1917,41 +2066,62 @@ fn execute(r: &mut Report, prog: Program, seed: u64, index: u64, (min_ops, max_o
     let mut made: Vec<Option<ThreadLocalCtxt>> = prog
         .insts
         .iter()
-        .map(|d| if d.place == Place::Worker { Some(make_ctxt(d.shared)) } else { None })
+        .map(|d| if d.place == Place::Worker { make_ctxt(d.route) } else { None })
         .collect();
     {
-        let (tx, rx) = std::sync::mpsc::channel::<(usize, ThreadLocalCtxt)>();
-        let siblings: Vec<(usize, bool)> = prog.insts.iter().enumerate().filter(|(_, d)| d.place == Place::Sibling).map(|(i, d)| (i, d.shared)).collect();
+        let (tx, rx) = std::sync::mpsc::channel::<(usize, Option<ThreadLocalCtxt>)>();
+        let siblings: Vec<(usize, Route)> = prog.insts.iter().enumerate().filter(|(_, d)| d.place == Place::Sibling).map(|(i, d)| (i, d.route)).collect();
         std::thread::scope(|s| {
             for (i, d) in prog.insts.iter().enumerate() {
                 if d.place == Place::OwnHelper {
                     let tx = tx.clone();
-                    let shared = d.shared;
+                    let route = d.route;
                     s.spawn(move || {
-                        let _ = tx.send((i, make_ctxt(shared)));
+                        let _ = tx.send((i, make_ctxt(route)));
                     });
                 }
             }
             if !siblings.is_empty() {
                 let tx = tx.clone();
                 s.spawn(move || {
-                    for (i, shared) in siblings {
-                        let _ = tx.send((i, make_ctxt(shared)));
+                    for (i, route) in siblings {
+                        let _ = tx.send((i, make_ctxt(route)));
                     }
                 });
             }
         });
         drop(tx);
         for (i, tl) in rx {
-            made[i] = Some(tl);
+            made[i] = tl;
         }
     }
     let prog_ref = &prog;
-    // the rest (`Place::ProgramThread`) is made by the thread that runs the program
+    let cls = classes(&prog.insts);
+    let routes_named = prog.insts.iter().any(|d| !matches!(d.route, Route::New | Route::Shared)) || prog.insts.iter().filter(|d| d.route == Route::Shared).count() > 1;
+    let cls_for_cx = cls.clone();
+    // the rest (`Place::ProgramThread`) is made by the thread that runs the program: `new()` /
+    // `shared()` / `default()` placed there, every `emit::setup()` (inside `Inst::new`), every copy / clone
     let make_and_run = move || {
+        let mut insts: Vec<Inst> = Vec::new();
+        for (d, m) in prog_ref.insts.iter().zip(made) {
+            #[allow(clippy::clone_on_copy)]
+            let given = match d.route {
+                Route::CopyOf(j) => {
+                    let copy = insts[j].tl;
+                    Some(copy)
+                }
+                Route::CloneOf(j) => Some(insts[j].tl.clone()),
+                Route::SetupSlot => None,
+                _ => m.or_else(|| make_ctxt(d.route)),
+            };
+            insts.push(Inst::new(given, *d));
+        }
         let cx = Cx {
             any_tp: prog_ref.insts.iter().any(|d| d.tp),
-            insts: prog_ref.insts.iter().zip(made).map(|(d, m)| Inst::new(m.unwrap_or_else(|| make_ctxt(d.shared)), *d)).collect(),
+            insts,
+            defs: prog_ref.insts.clone(),
+            cls: cls_for_cx,
+            routes_named,
             n_vars: prog_ref.n_vars,
             seed,
             index,
@@ -1994,6 +2164,31 @@ fn execute(r: &mut Report, prog: Program, seed: u64, index: u64, (min_ops, max_o
     }
     if prog.insts.iter().any(|d| d.tp) {
         r.observe("programs-with-a-traceparent-instance", 1);
+    }
+    if !cfg!(miri) || fixed.is_none() {
+        for i in 0..prog.insts.len() {
+            r.observe(&format!("instances-by-route:{}", route_name(&prog.insts, i)), 1);
+        }
+        // which pairs of routes met in one program, and what the identity oracle says about them
+        let mut pairs: Vec<String> = Vec::new();
+        for i in 0..prog.insts.len() {
+            for j in 0..i {
+                // (copies and clones are counted under one name here; `instances-by-route` has the details)
+                let short = |k: usize| if prog.insts[k].route.base().is_some() { "a-copy-or-clone".to_string() } else { route_name(&prog.insts, k) };
+                let mut names = [short(j), short(i)];
+                names.sort();
+                let p = format!("route-pairs:{}:{}+{}", if cls[i] == cls[j] { "same-context" } else { "isolated" }, names[0], names[1]);
+                if !pairs.contains(&p) {
+                    pairs.push(p);
+                }
+            }
+        }
+        for p in pairs {
+            r.observe(&p, 1);
+        }
+        if (0..prog.insts.len()).any(|i| cls[i] != i) {
+            r.observe("programs-with-two-handles-on-the-same-context", 1);
+        }
     }
     if prog.fresh_thread {
         r.observe("programs-run-on-a-fresh-thread", 1);
@@ -2077,8 +2272,18 @@ fn execute(r: &mut Report, prog: Program, seed: u64, index: u64, (min_ops, max_o
 fn prelude(r: &mut Report) {
     let first = ThreadLocalCtxt::new();
     let shared = ThreadLocalCtxt::shared();
+    // ... and the very first `Default::default()` (how `emit::setup()` builds its ctxt) next to both:
+    // whichever allocation a constructor takes its identity from, the first values must not coincide
+    let first_default = <ThreadLocalCtxt as Default>::default();
     let empty = Map::new();
-    for (name, entered, other) in [("shared-entered", shared, first), ("first-new-entered", first, shared)] {
+    for (name, entered, other) in [
+        ("shared-entered", shared, first),
+        ("first-new-entered", first, shared),
+        ("first-default-entered:ctxt=default+new", first_default, first),
+        ("first-new-entered:ctxt=default+new", first, first_default),
+        ("first-default-entered:ctxt=default+shared", first_default, shared),
+        ("shared-entered:ctxt=default+shared", shared, first_default),
+    ] {
         r.eval();
         r.observe("prelude-isolation-checks", 1);
         let mut f = Frame::push(entered, ("k0", 1));
@@ -2091,11 +2296,175 @@ fn prelude(r: &mut Report) {
             r.violation(
                 &format!("C03:first-new-instance-next-to-shared:{}", name),
                 &format!(
-                    "first ThreadLocalCtxt::new() of the process vs shared(): inside the frame the entered instance shows {:?}, the other instance shows {:?}; after exit they show {:?} / {:?}",
-                    inside, seen_by_other, after.0, after.1
+                    "the first ThreadLocalCtxt::new() / default() of the process and shared() next to each other ({}): inside the frame the entered instance shows {:?}, the other instance shows {:?}; after exit they show {:?} / {:?}",
+                    name, inside, seen_by_other, after.0, after.1
                 ),
                 json!({"prelude": name}),
             );
+        }
+    }
+}
+
+fn with_entered(frame: &mut AnyFrame<'_>, body: impl FnOnce()) {
+    each_frame!(frame, f => {
+        let _g = f.enter();
+        body()
+    })
+}
+
+/// The ambient properties of one event emitted through the instance's slot-held runtime.
+fn event_props(inst: &Inst) -> Option<Map> {
+    let rt = inst.slot.get();
+    EVENTS.with(|e| e.borrow_mut().clear());
+    emit::emit!(rt, "c03 identity {c03_own}", c03_own: 1);
+    let evs = EVENTS.with(|e| std::mem::take(&mut *e.borrow_mut()));
+    if evs.len() != 1 {
+        return None;
+    }
+    let mut m = evs.into_iter().next()?;
+    m.remove("c03_own");
+    Some(m)
+}
+
+/// One ordered pair of instances on one thread against the identity oracle. `same`: the oracle says
+/// the two are the same context (copy / clone, or both `shared()`); otherwise they are isolated: a
+/// frame entered on one is invisible through the other, a push on one does not inherit the other's
+/// properties, a root frame on one does not hide the other's, and nothing is left after the exits.
+fn identity_pair(a: &Inst, b: &Inst, hb: H, same: bool) -> Vec<(String, String)> {
+    let m = |pairs: &[(&str, i64)]| -> Map { pairs.iter().map(|(k, v)| (k.to_string(), v.to_string())).collect() };
+    let p = |k: &str, v: i64| -> OwnProps { vec![(k.to_string(), Val::I(v))] };
+    let oracle = if same { "expected-same-context" } else { "expected-isolated" };
+    let out: RefCell<Vec<(String, String)>> = RefCell::new(Vec::new());
+    let rot = Cell::new(0usize);
+    let expect = |point: &str, who: &str, inst: &Inst, want: Map| {
+        // by value, through the slot-held runtime's erased ctxt, and through one more handle type
+        rot.set(rot.get() + 3);
+        let extra = HANDLES[rot.get() % HANDLES.len()];
+        let handles: &[H] = if cfg!(miri) { &[H::Val, H::Slot] } else { &[H::Val, H::Slot, extra] };
+        for h in handles {
+            let got = inst.read(*h);
+            if got != want {
+                out.borrow_mut().push((
+                    format!("{}:read-{}:{}", point, who, oracle),
+                    format!("{}: the {} instance (read through {}) shows {:?}, the identity oracle ({}) wants {:?}", point, who, h.name(), got, oracle, want),
+                ));
+                break;
+            }
+        }
+    };
+    let expect_event = |point: &str, who: &str, inst: &Inst, want: Map| match event_props(inst) {
+        Some(got) if got == want => {}
+        got => out.borrow_mut().push((
+            format!("{}:event-through-{}-runtime:{}", point, who, oracle),
+            format!("{}: an event emitted through the {} instance's slot-held runtime carries {:?}, the identity oracle ({}) wants {:?}", point, who, got, oracle, want),
+        )),
+    };
+    expect("before", "first", a, m(&[]));
+    expect("before", "second", b, m(&[]));
+    if cfg!(miri) {
+        // every Miri seed creates, enters, leaves and closes one frame behind `dyn ErasedCtxt` with an
+        // inline (8-byte) payload, whatever the few generated programs of that seed happen to use
+        let mut fe = create(a, H::DynTl, FK::Push, &p("ke", 5));
+        with_entered(&mut fe, || expect("erased-inline-frame-entered", "first", a, m(&[("ke", 5)])));
+        drop(fe);
+        expect("erased-inline-frame-closed", "first", a, m(&[]));
+    }
+    let mut fa = create(a, H::Val, FK::Push, &p("ka", 1));
+    with_entered(&mut fa, || {
+        expect("entered-on-first", "first", a, m(&[("ka", 1)]));
+        expect("entered-on-first", "second", b, if same { m(&[("ka", 1)]) } else { m(&[]) });
+        let mut fb = create(b, hb, FK::Push, &p("kb", 2));
+        with_entered(&mut fb, || {
+            let both = m(&[("ka", 1), ("kb", 2)]);
+            expect("pushed-on-second", "second", b, if same { both.clone() } else { m(&[("kb", 2)]) });
+            expect("pushed-on-second", "first", a, if same { both.clone() } else { m(&[("ka", 1)]) });
+            expect_event("pushed-on-second", "first", a, if same { both.clone() } else { m(&[("ka", 1)]) });
+            expect_event("pushed-on-second", "second", b, if same { both.clone() } else { m(&[("kb", 2)]) });
+        });
+        expect("after-inner-exit", "first", a, m(&[("ka", 1)]));
+        expect("after-inner-exit", "second", b, if same { m(&[("ka", 1)]) } else { m(&[]) });
+        let mut rb = create(b, hb, FK::Root, &p("kr", 3));
+        with_entered(&mut rb, || {
+            expect("root-on-second", "second", b, m(&[("kr", 3)]));
+            expect("root-on-second", "first", a, if same { m(&[("kr", 3)]) } else { m(&[("ka", 1)]) });
+        });
+        let mut db = create(b, hb, FK::Disabled, &p("kd", 4));
+        with_entered(&mut db, || {
+            expect("disabled-on-second", "first", a, m(&[("ka", 1)]));
+            expect("disabled-on-second", "second", b, if same { m(&[("ka", 1)]) } else { m(&[]) });
+        });
+    });
+    expect("after-exit", "first", a, m(&[]));
+    expect("after-exit", "second", b, m(&[]));
+    drop(fa);
+    // one cause shows at every later step too: the first two findings name it
+    let mut out = out.into_inner();
+    out.truncate(2);
+    out
+}
+
+/// A fixed matrix run by every process before the generated programs: every construction route of
+/// a `ThreadLocalCtxt` next to every other one (and next to a copy / a clone of itself), both
+/// orders, on ONE thread.
+fn identity_matrix(r: &mut Report, seed: u64) {
+    const BASES: [Route; 4] = [Route::New, Route::Shared, Route::Default, Route::SetupSlot];
+    let mut n = 0u64;
+    let mut reported = 0;
+    for first in BASES {
+        for second in [Route::New, Route::Shared, Route::Default, Route::SetupSlot, Route::CopyOf(0), Route::CloneOf(0)] {
+            n += 1;
+            // (one read costs ~30 ms under Miri: two of the 24 pairs per Miri seed)
+            if cfg!(miri) && n % 12 != seed % 12 {
+                continue;
+            }
+            let defs = vec![
+                InstDef { route: first, slot_kind: 0, place: Place::ProgramThread, tp: false },
+                InstDef { route: second, slot_kind: (n % 3) as u8, place: Place::ProgramThread, tp: n % 5 == 0 },
+            ];
+            let same = {
+                let cls = classes(&defs);
+                cls[0] == cls[1]
+            };
+            let mut names = [route_name(&defs, 0), route_name(&defs, 1)];
+            let (first_name, second_name) = (names[0].clone(), names[1].clone());
+            names.sort();
+            let pair = format!("{}+{}", names[0], names[1]);
+            r.eval();
+            r.observe("identity-matrix:pairs", 1);
+            r.observe(&format!("identity-matrix:{}:{}", if same { "same-context" } else { "isolated" }, pair), 1);
+            let case = json!({"identity_matrix": pair, "first": first_name, "second": second_name, "oracle_says_same_context": same});
+            let res = catch(|| {
+                let a = Inst::new(make_ctxt(first), defs[0]);
+                #[allow(clippy::clone_on_copy)]
+                let given = match second {
+                    Route::CopyOf(_) => {
+                        let copy = a.tl;
+                        Some(copy)
+                    }
+                    Route::CloneOf(_) => Some(a.tl.clone()),
+                    _ => make_ctxt(second),
+                };
+                let b = Inst::new(given, defs[1]);
+                // frames on a `setup()` instance go through its runtime's ctxt, as a library's would
+                let hb = if second == Route::SetupSlot { H::Slot } else { H::Val };
+                identity_pair(&a, &b, hb, same)
+            });
+            match res {
+                Ok(findings) => {
+                    r.observe("identity-matrix:reads-and-events-compared", 30);
+                    for (what_sig, what) in findings {
+                        // (a defect that is not about identity at all fails every pair: leave room
+                        // in the signature list for what the generated programs say about it)
+                        if reported >= 8 {
+                            r.observe("identity-matrix:further-findings-not-listed", 1);
+                            continue;
+                        }
+                        reported += 1;
+                        r.violation(&format!("C03:identity:{}:ctxt={}", what_sig, pair), &what, case.clone());
+                    }
+                }
+                Err(msg) => r.violation(&format!("C03:identity:unexpected-panic:ctxt={}", pair), &format!("the identity matrix panicked for {}: {}", pair, msg), case),
+            }
         }
     }
 }
@@ -2114,6 +2483,7 @@ fn main() {
     let check_every = args.get_u64("check-every", 1).max(1) as usize;
     r.set("check_every_kth_program_point", json!(check_every));
     prelude(&mut r);
+    identity_matrix(&mut r, args.seed);
 
     r.set(
         "frame_payload_bytes",
